@@ -284,9 +284,15 @@ func runC02(c *Ctx) {
 		cases = append(cases, ccase{src, names, args, false})
 	}
 
+	var optCases []*c02OptCase
 	for _, cs := range cases {
 		on := c02Run(true, cs.src, cs.names, cs.args)
 		off := c02Run(false, cs.src, cs.names, cs.args)
+		// correspondence of the optimizer model: the tree the generator compiles (request OPT)
+		oc := c02OptPrepare(cs.src, cs.names)
+		oc.violated = strings.HasPrefix(on.outcome, "PANIC") || strings.HasPrefix(off.outcome, "PANIC") || on.genImpure != 0 || off.genImpure != 0 ||
+			!outcomesEqual(on.outcome, off.outcome, cs.tol)
+		optCases = append(optCases, oc)
 		nontriv := false
 		if !off.genErr {
 			// non-trivial: the optimizer changed the AST
@@ -332,6 +338,7 @@ func runC02(c *Ctx) {
 			c.Violation("impure-call-log-differs", "impure functions are executed differently with the optimizer", replay)
 		}
 	}
+	c02OptCompare(c, optCases)
 }
 
 // c02Decorate wraps some integer literals in counting functions and adds constant conditions.
